@@ -305,7 +305,7 @@ fn gen_lang(a: &HashMap<String, String>) {
                 }
             }
             json!({"ev": "filter", "id": k, "sch": si + 1, "max": max, "star": star, "ts": ts, "src": src,
-                   "ok": o.ok, "out": o.out, "ast": o.ast, "runs": o.runs, "uses": o.uses, "err": o.err})
+                   "ok": o.ok, "out": o.out, "ast": o.ast, "runs": o.runs, "uses": o.uses, "err": o.err, "ctxobs": o.ctxobs})
         };
         serde_json::to_writer(&mut tw, &ev).unwrap();
         tw.write_all(b"\n").unwrap();
@@ -502,8 +502,10 @@ fn reobserve(a: &HashMap<String, String>) -> i32 {
                 } else {
                     serde_json::to_value(observe_filter(&w, sch, max, &src, &cids, &unames)).unwrap()
                 };
-                for k in ["ok", "out", "ast", "runs", "uses"] {
-                    e[k] = o[k].clone();
+                for k in ["ok", "out", "ast", "runs", "uses", "ctxobs"] {
+                    if !o[k].is_null() {
+                        e[k] = o[k].clone();
+                    }
                 }
             }
             "script" => {
